@@ -33,7 +33,7 @@ var defects = []string{"import-cycle", "import-self", "include-cycle", "typedef-
 	"typedef-cycle-local-case", "typedef-cycle-local-augment", "typedef-cycle-local-uses-augment", "typedef-cycle-local-list",
 	"dangling-uses-augment-absolute", "illegal-config-in-remote-grouping", "illegal-default-in-remote-grouping",
 	"dangling-unique-last", "dangling-unique-inner", "dangling-unique-skips-choice", "dangling-unique-via-list", "dangling-unique-non-leaf",
-	"odd-extension-prefix", "odd-extension-name", "illegal-grouping-uses-deprecated-grouping"}
+	"odd-extension-prefix", "odd-extension-name", "illegal-grouping-uses-deprecated-grouping", "include-self", "dangling-import-include-chain"}
 
 func str(s string) *sg.TypeSpec { return &sg.TypeSpec{Name: s} }
 
@@ -93,6 +93,8 @@ func inject(mods []*sg.Mod, d string, pick func(n int) int) {
 	case "include-cycle":
 		m.Includes = append(m.Includes, "sa")
 		// submodules are appended by the caller through extra modules
+	case "include-self", "dangling-import-include-chain":
+		host.Includes = append(host.Includes, "sa")
 	case "typedef-cycle-used":
 		m.Typedefs = append(m.Typedefs, &sg.Typedef{Name: "cyc-a", Type: str("cyc-b")}, &sg.Typedef{Name: "cyc-b", Type: str("cyc-a")})
 		host.Nodes[0].Kids = append(host.Nodes[0].Kids, &sg.Node{Kind: "leaf", Name: "cyc-leaf", Type: str("cyc-a")})
@@ -284,6 +286,25 @@ func extraMods(c Case) []*sg.Mod {
 		return append(append([]*sg.Mod(nil), mods...),
 			&sg.Mod{Name: "sa", Prefix: "own", BelongsTo: owner, Includes: []string{"sb"}},
 			&sg.Mod{Name: "sb", Prefix: "own", BelongsTo: owner, Includes: []string{"sa"}})
+	case "include-self", "dangling-import-include-chain":
+		var owner string
+		for _, m := range mods {
+			for _, i := range m.Includes {
+				if i == "sa" {
+					owner = m.Name
+				}
+			}
+		}
+		if c.Defect == "include-self" {
+			// the shortest circular chain of includes
+			return append(append([]*sg.Mod(nil), mods...), &sg.Mod{Name: "sa", Prefix: "own", BelongsTo: owner, Includes: []string{"sa"}})
+		}
+		// a chain of includes that ends at a submodule which imports a module that is not there: found whatever the
+		// order in which the submodules are looked at
+		return append(append([]*sg.Mod(nil), mods...),
+			&sg.Mod{Name: "sa", Prefix: "own", BelongsTo: owner, Includes: []string{"sb"}},
+			&sg.Mod{Name: "sb", Prefix: "own", BelongsTo: owner, Includes: []string{"sc"}},
+			&sg.Mod{Name: "sc", Prefix: "own", BelongsTo: owner, Imports: []sg.Import{{Mod: "no-such-module-deep", Prefix: "nsm"}}})
 	case "belongs-to-missing":
 		return append(append([]*sg.Mod(nil), mods...), &sg.Mod{Name: "orphan", Prefix: "own", BelongsTo: "no-such-module"})
 	case "illegal-config-in-remote-grouping", "illegal-default-in-remote-grouping":
@@ -433,7 +454,7 @@ func checkCase(c Case) fw.Outcome {
 		}
 		dump := ""
 		if res.OK() {
-			dump = canon.Dump(res.MS, canon.Opts{})
+			dump = canon.Dump(res.MS, canon.Opts{ListsAsReported: true})
 		}
 		if r == 0 {
 			firstOK, firstDump, firstDesc = res.OK(), dump, res.Describe()
